@@ -975,10 +975,17 @@ class Manager:
             with contextlib.suppress(Exception):
                 self.tick()
 
-        # take the exit code before stop() can see that the loop has ended
-        code, self._exit_code = self._exit_code, None
+        # Hand over: what another thread fires from now on (e.g. the `stopped`
+        # of a stop() racing with us) is processed by stop() itself once it
+        # sees that no loop is executing; what was queued before is ours.
+        while True:
+            with self._lock:
+                if not len(self._queue):
+                    code, self._exit_code = self._exit_code, None
+                    self.root._executing_thread = None
+                    break
+            self.tick()
 
-        self.root._executing_thread = None
         self.__thread = None
         self.__process = None
 
